@@ -268,6 +268,8 @@ const CORPUS: &[&str] = &[
     "DELAY 0 1 \"x\" 2.0\nPULSE 1 \"x\" flat(duration: 1.0)\nPULSE 0 \"x\" flat(duration: 1.0)\n",
     // calibrations whose expansion holds CONCURRENT items with nested spans (missed by an earlier version of this
     // stream: `TimeSpan::union` returning [first.start, second.end] is wrong exactly when one span contains the other)
+    "CAPTURE 0 \"y\" flat(duration: 0.5, iq: ro[1]) ro[0]\nMOVE ro[1] 1\n",
+    "CAPTURE 0 \"y\" flat(duration: 0.5, iq: ro[1]) ro[0]\nPULSE 0 \"y\" flat(duration: 1.0, iq: ro[0])\n",
     "G 0\n",
     "H 0\n",
     "G 0\nH 0\n",
@@ -290,6 +292,7 @@ const ALPHABET: &[&str] = &[
     "A 0",
     "B 0 1",
     "CAPTURE 0 \"y\" flat(duration: 0.75) ro[0]",
+    "NONBLOCKING CAPTURE 0 \"x\" flat(duration: 0.5, iq: ro[1]) ro[0]",
     "G 0",
     "H 0",
     "K3 0 1",
@@ -330,7 +333,13 @@ fn random_line(rng: &mut Rng) -> String {
             format!("{nb}PULSE {f} erf_square(duration: {d}, pad_left: 0.25, pad_right: {pr})")
         }
         4 | 5 => format!("{nb}PULSE {f} {}", if rng.chance(1, 2) { "w4" } else { "w2" }),
-        6 => format!("{nb}CAPTURE {f} flat(duration: {d}, iq: 1.0) ro[0]"),
+        6 => {
+            if rng.chance(1, 2) {
+                format!("{nb}CAPTURE {f} flat(duration: {d}, iq: 1.0) ro[0]")
+            } else {
+                format!("{nb}CAPTURE {f} flat(duration: {d}, iq: ro[1]) ro[0]")
+            }
+        }
         7 => format!("{nb}RAW-CAPTURE {f} {d} ro[0]"),
         8 => format!("DELAY {} {d}", rng.below(3)),
         9 => format!("DELAY {f} {d}"),
